@@ -18,7 +18,7 @@ Vector(s) ==
   LET ms  == Mentions(s)
       o0  == OutcomeCut(s, 0)          \* prefix inputs deliver nothing
       pi  == SetToSeq(PrefixIdx(s, ms))
-  IN [tree    |-> [i \in DOMAIN s.tree |-> [p |-> PathStr(s.tree[i].p), k |-> s.tree[i].k, data |-> s.tree[i].data, tr |-> s.tree[i].tr]],
+  IN [tree    |-> [i \in DOMAIN s.tree |-> [p |-> PathStr(s.tree[i].p), k |-> s.tree[i].k, data |-> s.tree[i].data, tr |-> s.tree[i].tr, mem |-> s.tree[i].mem]],
       stdin   |-> s.stdin,
       usestdin |-> UsesStdin(s.args),
       argv    |-> [i \in DOMAIN s.args |-> PathStr(s.args[i])],
@@ -27,6 +27,8 @@ Vector(s) ==
       mentions |-> [i \in DOMAIN ms |-> NameOf(ms[i])],
       exp     |-> [rows |-> TallySeq(o0.tally), nerr |-> o0.nerr, exit |-> o0.exit, msg |-> o0.msg,
                    matched |-> o0.matched, read |-> o0.read, parse |-> o0.parse, maxopen |-> MaxOpen(s),
+                   free |-> SetToSeq(FreeNames(s)), nfree |-> MayTotal(s),
+                   ends |-> LET E == SetToSeq(AllowedEnd(o0, MayTotal(s))) IN [i \in DOMAIN E |-> [exit |-> E[i][1], msg |-> E[i][2]]],
                    partial |-> [i \in DOMAIN pi |-> [name |-> NameOf(ms[pi[i]]), full |-> ReadOutcome(s, ms[pi[i]]).full]]]]
 
 Dump == PrintT("VFJ " \o ToJson(Vector(sc)))
